@@ -2,7 +2,7 @@
 # tools/merge_agent.sh <scratch-dir> <base-commit>: merge a builder's scratch copy into /verif.
 # New files are copied; files that existed at <base-commit> are merged as patches (diff base→scratch).
 set -e
-D="$1"; BASE="$2"
+D="$1"; BASE="$2"; PID="${3:-}"
 cd /verif
 TMP=$(mktemp -d)
 git archive "$BASE" | tar -x -C "$TMP"
@@ -12,13 +12,20 @@ rsync -a --exclude .cache --exclude 'lean/.lake' --exclude 'harness/target' --ex
 grep -rlI "$D" "$S" | while read f; do sed -i "s#$D/repo#/repo#g; s#$D/verif#/verif#g" "$f"; done
 (cd "$S" && find . -type f -not -path './.cache/*' -not -path './lean/.lake/*' -not -path './evidence/*' \
    -not -path './harness/target/*' -not -name Cargo.lock -not -name MANIFEST.json | sed 's#^\./##') | while read f; do
-  if [ "$f" = known_findings.json ] || [ "$f" = tools/BUILDER_GUIDE.md ] || [ "$f" = tools/extract.py ]; then echo "skip  $f (merge by hand)"; elif [ ! -e "$TMP/$f" ]; then
+  if [ "$f" = known_findings.json ] || [ "$f" = tools/BUILDER_GUIDE.md ] || [ "$f" = lean/MetricsVerif/Generated/SourceFacts.lean ]; then echo "skip  $f (merge by hand / generated)"; elif [ ! -e "$TMP/$f" ]; then
     mkdir -p "$(dirname "$f")"; cp "$S/$f" "$f"; echo "new   $f"
   elif ! cmp -s "$TMP/$f" "$S/$f"; then
     case "$f" in
-      props.json|known_findings.json) echo "skip  $f (merge by key)";;
+      props.json) if [ -n "$PID" ]; then python3 - "$S/props.json" "$PID" <<'PY'
+import json, sys
+src = json.load(open(sys.argv[1])); dst = json.load(open('/verif/props.json'))
+dst[sys.argv[2]] = src[sys.argv[2]]
+json.dump(dst, open('/verif/props.json', 'w'), indent=1, ensure_ascii=False)
+print('props ' + sys.argv[2] + ' entry taken from the scratch copy')
+PY
+        else echo "skip  $f (merge by key: pass the property id as 3rd argument)"; fi;;
       harness/Cargo.toml) diff -u "$TMP/$f" "$S/$f" | grep '^[+-]' | grep -v '^[+-][+-]' | grep -v 'path = "/' | sed 's/^/cargo: /';;
-      *) if diff -u "$TMP/$f" "$S/$f" | patch -p0 --no-backup-if-mismatch "$f" >/dev/null; then echo "patch $f"; else echo "FAILED patch $f"; fi;;
+      *) if diff -u "$TMP/$f" "$S/$f" | patch -p0 --no-backup-if-mismatch -F3 "$f" >/dev/null; then echo "patch $f"; else echo "FAILED patch $f  (scratch version kept at /tmp/merge-failed/$f)"; mkdir -p "/tmp/merge-failed/$(dirname "$f")"; cp "$S/$f" "/tmp/merge-failed/$f"; diff -u "$TMP/$f" "$S/$f" > "/tmp/merge-failed/$f.diff" || true; fi;;
     esac
   fi
 done
